@@ -759,6 +759,10 @@ pub fn inflate_reset_case(t: &mut Tape, ctx: &Ctx, o: &mut Outcome) {
     // (decoded last, so older tapes keep their meaning) zlib streams with a preset dictionary as history and/or
     // continuation: "a dictionary was supplied" is part of the state a reset must forget
     let dmode = if how == 3 { 0 } else { t.below(5) };
+    // inflateSync in the history (3: on bytes without a marker -> fails; 4, 5: with a 00 00 FF FF marker -> succeeds),
+    // and then a continuation whose trailer is damaged: whether checking is still on is part of "like a fresh stream"
+    let sync_mode = if how == 3 { 0 } else { t.below(6) };
+    let damage_trailer = sync_mode >= 3 && t.bool();
     let (mut s1, mut s2) = (s1, s2);
     let mut mode_arg_override: Option<c_int> = None;
     let mut dicts: (Option<Vec<u8>>, Option<Vec<u8>>) = (None, None);
@@ -793,7 +797,17 @@ pub fn inflate_reset_case(t: &mut Tape, ctx: &Ctx, o: &mut Outcome) {
             }
         }
     }
-    ARENAS.with(|ar| {
+    if damage_trailer && s2.wrap != Wrap::Raw && matches!(s2.label, Label::Valid | Label::Encoded(_)) && s2.stream_len >= 8 && s2.stream_len <= s2.bytes.len() {
+        let at = s2.stream_len - 1 - (seed as usize % 4);
+        s2.bytes[at] ^= 1 << ((seed >> 3) & 7);
+    }
+    let fill = if how != 3 { t.pick(&[0x00u8, 0xFF, 0xA5]) } else { 0 };
+    let wb1_alt = if how == 1 && !mode1_same_family { Some(t.pick(&[-15, 15, 31, 47, -9, 9])) } else { None };
+    // model: how the "fresh" twin is initialised - 0: inflateInit2(windowBits) (what the property says);
+    // 1 / 2: what zlib documents for a stream that went through a successful inflateSync (raw / checking off)
+    let core = |model: u8, o: &mut Outcome| -> bool {
+      let mut sync_ok = false;
+      ARENAS.with(|ar| {
         if how == 3 {
             // Inflate::reset(zlib_header) == Inflate::new(zlib_header, 15)
             let hdr = s2.wrap != Wrap::Raw;
@@ -836,7 +850,7 @@ pub fn inflate_reset_case(t: &mut Tape, ctx: &Ctx, o: &mut Outcome) {
             }
             return;
         }
-        let tr = Tracker::new(t.pick(&[0x00u8, 0xFF, 0xA5]));
+        let tr = Tracker::new(fill);
         guard::register(&tr);
         // history stream: same windowBits argument as the continuation needs (reset keeps it), or another one for Reset2
         let mut wb2 = mode_arg_override.unwrap_or(mode.arg());
@@ -846,7 +860,7 @@ pub fn inflate_reset_case(t: &mut Tape, ctx: &Ctx, o: &mut Outcome) {
             // with a fresh inflateInit2(.., 0); inflateReset2(.., 0) is.
             wb2 += 15;
         }
-        let wb1 = if how == 1 && !mode1_same_family { t.pick(&[-15, 15, 31, 47, -9, 9]) } else { wb2 };
+        let wb1 = wb1_alt.unwrap_or(wb2);
         let wb1 = if dicts.0.is_some() && how == 1 { 15 } else { wb1 };
         let mut st = match i_init(wb1, &tr, "reset stream") {
             Some(s) => s,
@@ -859,6 +873,17 @@ pub fn inflate_reset_case(t: &mut Tape, ctx: &Ctx, o: &mut Outcome) {
         let mut scratch = Outcome::new();
         let (n1, rc1, _) = lockstep_inflate_dict(&mut only, ar, &s1.bytes, &sched1, stop1, None, None, &mut scratch, "history", seed, dicts.0.as_deref());
         st = only.pop().unwrap();
+        if sync_mode >= 3 {
+            let mut b: Vec<u8> = vec![0x55, 0xAA, 0x55, 0x12, 0x34];
+            if sync_mode >= 4 {
+                b.extend_from_slice(&[0, 0, 0xFF, 0xFF, 0x03, 0x00]);
+            }
+            let ip = ar.inp.put_right(&b);
+            st.strm.next_in = ip;
+            st.strm.avail_in = b.len() as u32;
+            let src = unsafe { Rs::inflateSync(&mut *st.strm) };
+            sync_ok = src == Z_OK;
+        }
         if std::env::var("VERIF_DEBUG").is_ok() {
             eprintln!("inflate reset: how {} wb1 {} wb2 {} hist {:?} {} bytes ({}) n1 {} rc1 {} sched1 {} | cont {:?} {} bytes ({})", how, wb1, wb2, s1.label, s1.bytes.len(), crate::json::hex_cut(&s1.bytes, 64), n1, rc1, sched1.describe(), s2.label, s2.bytes.len(), crate::json::hex_cut(&s2.bytes, 64));
         }
@@ -873,7 +898,7 @@ pub fn inflate_reset_case(t: &mut Tape, ctx: &Ctx, o: &mut Outcome) {
             guard::unregister(&tr);
             return;
         }
-        let fresh = match i_init(wb2, &tr, "fresh stream") {
+        let fresh = match i_init(if model == 1 { -15 } else { wb2 }, &tr, "fresh stream") {
             Some(s) => s,
             None => {
                 unsafe { Rs::inflateEnd(&mut *st.strm) };
@@ -881,6 +906,10 @@ pub fn inflate_reset_case(t: &mut Tape, ctx: &Ctx, o: &mut Outcome) {
                 return;
             }
         };
+        let mut fresh = fresh;
+        if model == 2 {
+            unsafe { Rs::inflateValidate(&mut *fresh.strm, 0) };
+        }
         let mut both = vec![fresh, st];
         // gzip header capture on both (a stale parser offset in the reused stream shows up in the captured fields)
         struct Cap {
@@ -909,6 +938,9 @@ pub fn inflate_reset_case(t: &mut Tape, ctx: &Ctx, o: &mut Outcome) {
         }
         let (n2, _, _) = lockstep_inflate_dict(&mut both, ar, &s2.bytes, &sched2, None, None, None, o, rname, seed ^ 3, dicts.1.as_deref());
         i_end_all(&mut both);
+        if sync_mode >= 3 {
+            o.class(if sync_ok { "inflate reset: history with a successful inflateSync" } else { "inflate reset: history with a failed inflateSync" });
+        }
         if caps.len() == 2 && o.fail.is_none() {
             let (a, b) = (&caps[0], &caps[1]);
             let fixed = |h: &gz_header| (h.text, h.time, h.xflags, h.os, h.extra_len, h.hcrc, h.done, h.extra.is_null(), h.name.is_null(), h.comment.is_null());
@@ -947,7 +979,31 @@ pub fn inflate_reset_case(t: &mut Tape, ctx: &Ctx, o: &mut Outcome) {
                 o.sample = Some(J::obj().set("kind", J::s(format!("{} vs fresh inflateInit2", rname))).set("history", J::s(format!("{:?} {} bytes, windowBits {}, {} calls, last status {}", s1.label, s1.bytes.len(), wb1, n1, rc_name(rc1)))).set("continuation", J::s(format!("{:?} {} bytes, windowBits {}: {}", s2.label, s2.bytes.len(), wb2, sched2.describe()))));
             }
         }
-    });
+      });
+      sync_ok
+    };
+    let sync_ok = core(0, o);
+    if sync_ok && how != 1 && o.fail.is_some() {
+        // zlib's documented behaviour: a successful inflateSync makes the stream raw (no header seen yet) or switches
+        // checking off, and inflateReset keeps that. Is the divergence exactly that? Compare the reset stream with a
+        // fresh one set up the same way; only if one of them matches is this the listed finding.
+        let orig = o.fail.take();
+        let mut explained = false;
+        for model in [1u8, 2u8] {
+            let mut o2 = Outcome::new();
+            core(model, &mut o2);
+            if o2.fail.is_none() {
+                explained = true;
+                break;
+            }
+        }
+        if explained {
+            let m = orig.map(|f| f.msg).unwrap_or_default();
+            o.fail("inflateReset/after-successful-inflateSync", format!("inflateReset after a successful inflateSync does not restore the wrapper / checksum checking that inflateSync switched off: the reset stream behaves like a raw or unchecked stream, not like a fresh inflateInit2 one ({})", m));
+        } else {
+            o.fail = orig;
+        }
+    }
 }
 
 pub fn case(tape: &[u8], ctx: &Ctx) -> Outcome {
